@@ -236,7 +236,7 @@ def direct_oracle(cfg, rs, tier, n_tests, want_sampling=True):
     marginal consistency, mpe/sample shape + evidence."""
     import torch
     n = cfg.n; m = cfg.m
-    stats = dict(mass=0, marg=0, mpe=0, sample_rows=0, gof=0, state_dict_twins=0)
+    stats = dict(mass=0, marg=0, mpe=0, sample_rows=0, gof=0, state_dict_twins=0, half_leaf_models=0)
     with torch.no_grad():
         ll0 = m(torch.full((1, n), float("nan")))
     if not np.all(np.abs(ll0.numpy()) < 1e-4):
@@ -290,6 +290,24 @@ def direct_oracle(cfg, rs, tier, n_tests, want_sampling=True):
     if bad:
         return bad, stats
     cfg.mpe_rows, cfg.mpe_ys, cfg.mpe_out = rows, ys, out.numpy()
+    # leaves with p exactly 1/2 (uniform / zero-initialised logits): the mode is still a value of the domain
+    if cfg.kind == "bern":
+        from deeprob.spn.models.ratspn import BernoulliRatSpn
+        h = BernoulliRatSpn(cfg.n, out_classes=cfg.classes, rg_depth=cfg.d, rg_repetitions=cfg.reps, rg_batch=cfg.batch,
+                            rg_sum=cfg.sums, random_state=np.random.RandomState(cfg.seed + 3))
+        with torch.no_grad():
+            h.base_layer.logits.zero_()
+        h.eval()
+        try:
+            with torch.no_grad():
+                oh = h.mpe(x.clone(), y=torch.tensor(ys))
+        except Exception as e:
+            return dict(what="mpe raised on a model whose leaves have p = 1/2", error=f"{type(e).__name__}: {e}"), stats
+        bad = check_completion(cfg, x, oh, "mpe (all leaves p = 1/2)")
+        stats["half_leaf_models"] += 1
+        if bad:
+            bad["input"] = x[0].tolist(); bad["output"] = oh[0].tolist()
+            return bad, stats
     # a model reached through a checkpoint: a twin with the same architecture but another region graph, after
     # load_state_dict, IS the original model (same distribution), so it must answer every query identically
     bad = twin_after_load(cfg, x, ys, out)
@@ -445,7 +463,7 @@ def main(tier, seed, replay=None):
     n_gof = sum(c.classes for c in cfgs if c.kind == "bern" and c.n <= 6)
     dist = dict(features={}, depth={}, padded=0, kinds={}, nan_cells={}, exhaustive_configs=0)
     built = []
-    oracle_stats = dict(mass=0, marg=0, mpe=0, sample_rows=0, gof=0, state_dict_twins=0)
+    oracle_stats = dict(mass=0, marg=0, mpe=0, sample_rows=0, gof=0, state_dict_twins=0, half_leaf_models=0)
     n_viol = 0
     for cfg in cfgs:
         try:
